@@ -34,8 +34,9 @@ fn satisfied(gt: usize, groups: &[(usize, usize)], counts: &[usize]) -> bool { c
 
 pub fn run(ctx: &Ctx) -> i32 {
     let th = ctx.tier.thorough();
-    let (gmax, nmax) = if th { (3, 4) } else { (2, 4) };
-    let pols = policies(gmax, nmax);
+    let quick_pols = { let mut p = policies(2, 4); p.extend(policies(3, 3).into_iter().filter(|x| x.1.len() == 3)); p };
+    let (gmax, nmax) = if th { (3, 4) } else { (3, 3) };
+    let pols = if th { policies(gmax, nmax) } else { quick_pols };
     let key = SymmetricKey::from_data([7u8; 32]);
     let origs = originals();
     let acc = pols.par_iter().enumerate().with_max_len(1).map(|(pi, (gt, groups))| {
